@@ -13,23 +13,25 @@ IDEAL = "IdealAead: invertible keystream + decrypt accepts iff (key,nonce,aad,ct
 RNG = "ScriptRng: the caller's RNG hands out symbolic bytes and records every call"
 HKDFSTUB = "in the composed (setup-level) harnesses the hkdf crate's five entry points hpke calls (HkdfExtract::new/input_ikm/finalize, Hkdf::from_prk/expand_multi_info) are replaced by a functional model of RFC 5869/2104 over the same model hash (kani/hv/src/fasthkdf.rs; 14x faster); the real hkdf+hmac crates are tied to the same reference by the un-stubbed harnesses c02_l0_labeled_kdf_real and c03_*"
 REF = "oracle: kani/hv/src/rfc9180.rs, an independent transcription of RFC 9180 sections 4-5, 7.1.3 over hand-written HMAC (RFC 2104) and HKDF (RFC 5869)"
+SCRIPT = "ScriptKdf: in c03_l4_* every HMAC output is harness-chosen (symbolic) and the HMAC inputs are logged - the hash is an arbitrary function; SecretKey::public_key (curve arithmetic) is replaced by an assertion point that ends the path"
+SKETCH = "EndsKdf/sketch.rs: in the long-input harnesses the hash is a sketch of the concatenated message (length, first 48 bytes, last byte, six far probes): sound for equalities with the reference; a deviation is found when it changes the sketch (any length change does)"
 PARAM = "transfer from the model suite to the 48 real suites: hpke's generic code sees its parameters only through the trait items; the non-parametric facts (ids, sizes, suite-id bytes, capacity constants) are decided on the real types by c02_l6_tables"
 REALCRYPTO = "arithmetic of the real primitives (SHA-2, AES-GCM, ChaCha20Poly1305, X25519, P-256/384/521) is NOT executed symbolically (measured out of reach); their correctness is assumed"
 
 ASSUMPTIONS = {
     "C01": [HKDFSTUB, XORDH, LIN, IDEAL, RNG, PARAM, REALCRYPTO],
-    "C02": [HKDFSTUB, XORDH, LIN, SPY, RNG, REF, PARAM, REALCRYPTO],
-    "C03": [XORDH, LIN, RNG, REF, PARAM, REALCRYPTO, "pk(sk) and DH results on the real curves for symbolic keys are not decided"],
+    "C02": [HKDFSTUB, XORDH, LIN, SPY, RNG, REF, SKETCH, PARAM, REALCRYPTO],
+    "C03": [XORDH, LIN, RNG, REF, SCRIPT, PARAM, REALCRYPTO, "pk(sk) and DH results on the real curves for symbolic keys are not decided"],
     "C04": [SPY, "LinKdf/ToyKemLin only fix the type parameters of the context (no hashing happens in seal)"],
     "C05": [SPY, IDEAL],
     "C06": [SPY, IDEAL],
-    "C07": [XORDH, INTERN, IDEAL, RNG, PARAM],
-    "C08": [XORDH, INTERN, IDEAL, RNG, PARAM, "on the real curves the corresponding assumption is gap-DH"],
+    "C07": [HKDFSTUB, XORDH, INTERN, IDEAL, RNG, SKETCH, PARAM],
+    "C08": [HKDFSTUB, XORDH, INTERN, IDEAL, RNG, PARAM, "on the real curves the corresponding assumption is gap-DH"],
     "C09": ["coordinate range and curve-equation checks of public keys (x,y < p, on-curve) are NOT decided: symbolic field arithmetic is out of reach (measured); only length, tag byte and private-scalar range are claimed"],
     "C10": ["x25519_dalek::StaticSecret::diffie_hellman is stubbed by an oracle returning an arbitrary 32-byte value (the ladder is out of reach); that every small-order encoding yields the zero value for every scalar is Curve25519 mathematics and not decided"],
     "C11": [HKDFSTUB, LIN, SPY, REF, "ConstKdf (Nh=2, constant hash) for the 255*Nh limit; successful maximum-length export on real SHA-2 is not executed (follows from the generic-code harness)"],
     "C12": ["NIST public/encapsulated key round trips (need symbolic field arithmetic) are not decided; X25519, NIST private keys, tags and all length checks are"],
-    "C13": [HKDFSTUB, XORDH, LIN, SPY, RNG, "for NIST public keys of the right length with tag 0x04 the curve crates' own arithmetic is not executed; panics inside the primitive crates are outside the claim"],
+    "C13": [HKDFSTUB, XORDH, LIN, SPY, RNG, SKETCH, "for NIST public keys of the right length with tag 0x04 the curve crates' own arithmetic is not executed; panics inside the primitive crates are outside the claim"],
     "C14": [HKDFSTUB, XORDH, LIN, IDEAL, RNG],
     "C15": [HKDFSTUB, XORDH, LIN, SPY, REF],
     "C16": [HKDFSTUB, "volatile writes are modelled as plain writes; survival of the wipes under compiler optimisation is zeroize's guarantee and not decided; copies left by moves and key material inside the AEAD state are outside the claim"],
